@@ -264,6 +264,8 @@ pub enum Stmt {
     Create(TableDef),
     Drop(String),
     Index { name: String, tbl: String, cols: Vec<(usize, String)> },
+    /// ALTER TABLE t ALTER COLUMN c SET | DROP NOT NULL (column index is 1-based)
+    AlterNn { tbl: String, col: (usize, String), nn: bool },
     /// text the specification has no semantics for; `ro` = cannot change data whatever it does
     Opaque { sql: String, ro: bool },
 }
@@ -282,6 +284,7 @@ impl Stmt {
             Stmt::Create(t) => t.create_sql(),
             Stmt::Drop(t) => format!("DROP TABLE {t}"),
             Stmt::Index { name, tbl, cols } => format!("CREATE UNIQUE INDEX {} ON {} ({})", name, tbl, cols.iter().map(|c| c.1.clone()).collect::<Vec<_>>().join(", ")),
+            Stmt::AlterNn { tbl, col, nn } => format!("ALTER TABLE {} ALTER COLUMN {} {} NOT NULL", tbl, col.1, if *nn { "SET" } else { "DROP" }),
             Stmt::Opaque { sql, .. } => sql.clone(),
         }
     }
@@ -296,6 +299,7 @@ impl Stmt {
             Stmt::Create(t) => t.create_json(),
             Stmt::Drop(t) => json!({"k": "drop", "tbl": t}),
             Stmt::Index { tbl, cols, .. } => json!({"k": "index", "tbl": tbl, "cols": cols.iter().map(|c| c.0).collect::<Vec<_>>()}),
+            Stmt::AlterNn { tbl, col, nn } => json!({"k": "alternn", "tbl": tbl, "c": col.0, "nn": nn}),
             Stmt::Opaque { ro, .. } => json!({"k": "opaque", "ro": ro}),
         }
     }
